@@ -283,6 +283,24 @@ def run_inproc(tier, seed, spec, col):
                     col.violation("record-depends-on-locus-order-or-subset", "%s: record of locus %s changes when the locus list is permuted/sub-setted:\n %s\n %s"
                                   % (prog, rec_key(l), (base.get(rec_key(l)) or "")[:200], l[:200]), case)
                     break
+        # ---- a single locus given with --region instead of a targets file
+        if prog == "assemble":
+            L = ds.loci[int(rng.integers(len(ds.loci)))]
+            a = [x for x in argv_for(ds, prog)]
+            i = a.index("--targets")
+            a[i:i + 2] = ["--region", "%s:%d-%d" % (L["contig"], L["start"], L["stop"]), "--region-id", L["name"]]
+            out4, e4 = cli.run_inproc(a)
+            col.count("inproc_subset_runs")
+            col.count("region_mode_runs")
+            case = dict(rep, what="region", locus=L["name"])
+            col.case(case, nontrivial=True)
+            if e4 is not None:
+                col.violation("program-fails-on-valid-input", "assemble --region raised %r" % e4, case)
+            else:
+                r4 = cli.record_lines(out4)
+                if len(r4) != 1 or base.get(rec_key(r4[0])) != r4[0]:
+                    col.violation("record-depends-on-locus-order-or-subset", "assemble --region %s gives %s, targets run gave %s"
+                                  % (L["name"], [x[:160] for x in r4], (base.get((L["contig"], str(L["start"] + 1))) or "")[:160]), case)
         # ---- history of one locus inside a program object
         mod = {"assemble": "assemble", "call": "call", "call-exact": "call_exact", "call-pedigree": "call_pedigree"}[prog]
         import importlib
